@@ -1,6 +1,8 @@
 """C15 - graph relations agree with their definitions on every PDAG."""
 import itertools
 
+import math
+
 import numpy as np
 from hypothesis import strategies as st
 
@@ -26,7 +28,24 @@ ASSUMPTIONS = [
 ]
 
 
+def _layered(layers, a, weighted):
+    """Complete layers: every node of layer k points to every node of layer k+1; labels scrambled by i -> (a*i + 3) mod p
+    (a coprime to p); weights of both signs when asked.  Fan-in / fan-out of 128 and more with very few paths."""
+    p = sum(layers)
+    lab = [(a * i + 3) % p for i in range(p)]
+    M = np.zeros((p, p))
+    start = 0
+    for k in range(len(layers) - 1):
+        for i in range(start, start + layers[k]):
+            for j in range(start + layers[k], start + layers[k] + layers[k + 1]):
+                M[lab[i], lab[j]] = (-1.5 if (i + j) % 3 == 0 else 0.75) if weighted else 1
+        start += layers[k]
+    return M if weighted else M.astype(np.int64)
+
+
 def _mat(case):
+    if "layers" in case:
+        return _layered(case["layers"], case["a"], case.get("weighted", False))
     if "W" in case:
         from props.gcommon import relayout
         return relayout(np.array([[float(fr(x)) for x in row] for row in case["W"]], dtype=float))
@@ -313,6 +332,8 @@ def plan(tier, seed):
     shards = 16 if tier == "quick" else 64
     for k in range(shards):
         jobs.append({"sub": "hyp", "seed": seed, "shard": k, "n": max(1, n // shards), "cost": 8})
+    for k, layers in enumerate([[3, 150, 2], [1, 200, 1], [2, 129, 3, 2], [130, 2]] + ([[4, 260, 2], [2, 140, 140, 1]] if tier == "thorough" else [])):
+        jobs.append({"sub": "layered", "seed": seed, "layers": layers, "index": k, "cost": 15})
     if tier == "thorough":
         for k in range(64):
             jobs.append({"sub": "pdag_p5_slice", "p": 5, "shard": k, "nshards": 64, "step": 8, "offset": seed, "seed": seed, "cost": 40})
@@ -348,6 +369,21 @@ def run(job):
         _run_exh(acc, job)
     elif job["sub"] == "pdag_p5_slice":
         _run_p5(acc, job)
+    elif job["sub"] == "layered":
+        layers = job["layers"]
+        p = sum(layers)
+        a = next(x for x in range(7 + job["seed"] % 5, 7 + job["seed"] % 5 + 4 * p) if math.gcd(x, p) == 1)
+        lab = [(a * i + 3) % p for i in range(p)]
+        ends = [lab[i] for i in list(range(min(3, layers[0]))) + list(range(p - min(3, layers[-1]), p))] + [lab[layers[0]]]
+        for weighted in (False, True):
+            case = {"sub": "layered", "layers": layers, "a": a, "weighted": weighted, "what": ["reach", "basic"], "nodes": sorted(set(ends))}
+            try:
+                labs = check(case)
+                acc.record(case, labs + ["layered", "fan_ge_128"], True, by_construction=True)
+            except Violation as v:
+                acc.record(case, [], False)
+                acc.violation(case, v)
+        acc.exhaustive = False
     else:
         run_property(acc, _hyp_case(), _hyp_check, _nontrivial, job["n"], job_seed(job))
         acc.exhaustive = False
